@@ -70,7 +70,16 @@ def fit_case(cid, kind, P, Hd, order, queries, s, tolerance=1e-12, xdtype=None):
             else:
                 c["hres"] = [True] * n
                 c["hnan"] = [False] * n
-            for (qy, qx) in queries:
+            if queries:
+                # all queries in ONE call as well (a batch mixing samples below and above the surface)
+                Xb = np.zeros((len(queries), ncol))
+                for qi, (qy, qx) in enumerate(queries):
+                    for k, cc in enumerate(cols):
+                        Xb[qi, cc] = qx[k] / s
+                if xdtype is not None:
+                    Xb = (Xb * s).astype(xdtype)
+                batch = np.asarray(m.score_samples(Xb, np.array([qy / s for qy, _ in queries])), float) * s
+            for qi, (qy, qx) in enumerate(queries):
                 Xq = np.zeros((1, ncol))
                 for k, cc in enumerate(cols):
                     Xq[0, cc] = qx[k] / s
@@ -79,7 +88,7 @@ def fit_case(cid, kind, P, Hd, order, queries, s, tolerance=1e-12, xdtype=None):
                 dqv = float(m.score_samples(Xq, np.array([qy / s]))[0]) * s
                 # raw sign for queries: the specification only demands a sign where its exact offset is non-zero
                 c["queries"].append({"y": int(qy), "x": [int(v) for v in qx], "sgn": int(np.sign(dqv)),
-                                     "dq": int(round(dqv * 1024))})
+                                     "dq": int(round(dqv * 1024)), "dqb": int(round(float(batch[qi]) * 1024)) if np.isfinite(batch[qi]) else 2000000000})
     except Exception as e:  # noqa
         c["raised"] = True
         c["msg"] = "%s: %s" % (type(e).__name__, str(e)[:100])
